@@ -21,7 +21,7 @@ func TestVerifC17Gen(t *testing.T) {
 	p := vrep.Env()
 	res := vrep.New("C17", p)
 	defer res.Guard()
-	res.Rule = "generator leg: (c) every ordered list of 1-3 records over {cmd/go, cmd/compile, gopls} x minimum version {none, low, high, newer than every known release} x depth {0,5} through the real generate with a fixed set of known versions: each counter expression listed once under its program, as a stack iff it has a depth, versions = every known version not older than the smallest minimum of the program's records (Go-version order for toolchain programs, semver order otherwise; padded extras allowed); (d) padVersions on every subset (size <= 3, thorough 4) of a 10-version pool, and those lists with one version named twice, x 243 padding settings: superset of the input, sorted, duplicate-free, no panic"
+	res.Rule = "generator leg: (c) every ordered list of 1-3 records over {cmd/go, cmd/compile, gopls} x minimum version {none, low, high, newer than every known release} x depth {0,5} through the real generate with a fixed set of known versions: each counter expression listed once under its program, as a stack iff it has a depth, versions = every known version not older than the smallest minimum of the program's records (Go-version order for toolchain programs, semver order otherwise; padded extras allowed); (d) padVersions on every subset (size <= 3, thorough 4) of a 12-version pool (two with numeric components beyond 64 resp. 63 bits), and those lists with one version named twice, x 243 padding settings: superset of the input, sorted, duplicate-free, no panic"
 	// The known versions are installed afresh before every generate call (generate filters the list it is
 	// handed in place). They include early releases (v0.0.1, v0.1.0, v1.0.0): version padding counts up from a
 	// release, so it can only be told apart from a listing of old real releases if such releases exist.
@@ -163,7 +163,7 @@ func TestVerifC17Gen(t *testing.T) {
 		res.Class(fmt.Sprintf("c/programs=%d/records=%d", len(byProg), len(list)))
 	}
 	// (d) padVersions
-	pool := []string{"v0", "v0.1.0", "v1.0.0", "v1.2", "v1.2.3", "v1.2.4-pre.1", "v1.3.0-pre.2", "v2.0.0", "v1.2.3+meta", "v0.14.1-pre.1"}
+	pool := []string{"v0", "v0.1.0", "v1.0.0", "v1.2", "v1.2.3", "v1.2.4-pre.1", "v1.3.0-pre.2", "v2.0.0", "v1.2.3+meta", "v0.14.1-pre.1", "v99999999999999999999.0.0", "v1.9223372036854775807.0"}
 	var subsets [][]string
 	maxN := 3
 	if p.Thorough() {
